@@ -60,7 +60,7 @@ func mainEngine(o *Out, scnFile string, seed int64, count int, modes string, var
 		id++
 		cj := cfg.toJSON()
 		agree := true
-		if id%3 == 0 { // every third scenario is also executed through (*Flow).Run
+		if id%3 == 0 && cfg.GenMode != "hugeloop" { // every third scenario is also executed through (*Flow).Run
 			if src == "tlc" {
 				agree = flowRunAgrees(cfg, func() Script { return scriptFromHistory(exp) }, evs)
 			} else {
@@ -68,7 +68,7 @@ func mainEngine(o *Out, scnFile string, seed int64, count int, modes string, var
 			}
 		}
 		reent := true
-		if id%4 == 1 && !cfg.Cancel {
+		if id%4 == 1 && !cfg.Cancel && cfg.GenMode != "hugeloop" {
 			// every fourth scenario is executed once more with a run of the same node object nested into an exec callback
 			if src == "tlc" {
 				reent = nestedRunInvisible(cfg, func() Script { return scriptFromHistory(exp) }, evs)
@@ -84,6 +84,9 @@ func mainEngine(o *Out, scnFile string, seed int64, count int, modes string, var
 			if x == "panic" {
 				fam = "enginepanic" // judged only on what a run that does return must satisfy
 			}
+		}
+		if cfg.GenMode == "hugeloop" {
+			fam = "enginelong" // judged on the counted facts of the run
 		}
 		o.WriteScenarioY(id, fam, src, cj, exp, evs, agree, reent)
 	}
@@ -113,7 +116,7 @@ func mainEngine(o *Out, scnFile string, seed int64, count int, modes string, var
 				fam = "engine"
 			}
 			reent := true
-			if !cfg.Cancel {
+			if !cfg.Cancel && cfg.GenMode != "hugeloop" {
 				if asStr(line["src"]) == "tlc" {
 					reent = nestedRunInvisible(cfg, func() Script { return scriptFromHistory(exp) }, evs)
 				} else {
